@@ -256,3 +256,186 @@ func HarnessC13WSFinishWhileSending() {
 	vAssert(!t.Connected(), "c13:ws-connection-released")
 	vAssert(vThreadsLive() <= 0, "c13:ws-no-goroutine-left-behind")
 }
+
+// vhWSCoopConn: the byte-level peer of a server-side WebSocket connection - a well-behaved client that
+// says `new`, authenticates as guest echoing the session id the server announced, sends its messages once
+// the session is established, then stays silent. Reads block (until the read deadline is moved into the
+// past, the connection is closed, or the server writes something the script was waiting for).
+type vhWSCoopConn struct {
+	in       int
+	name     string
+	msgs     int
+	step     int
+	frames   [][]byte
+	rexp     chan struct{}
+	wrote    chan struct{}
+	closeCh  chan struct{}
+	once     sync.Once
+	closed   bool
+	sentMsgs []string
+}
+
+func newVhWSCoopConn(in int, name string, msgs int) *vhWSCoopConn {
+	return &vhWSCoopConn{in: in, name: name, msgs: msgs, rexp: make(chan struct{}, 1), wrote: make(chan struct{}, 1), closeCh: make(chan struct{})}
+}
+
+// lastSession: the last session envelope the server wrote.
+func (c *vhWSCoopConn) lastSession() *Session {
+	for i := len(c.frames) - 1; i >= 0; i-- {
+		var raw rawEnvelope
+		if json.Unmarshal(c.frames[i], &raw) != nil {
+			continue
+		}
+		if e, err := raw.toEnvelope(); err == nil {
+			if s, ok := e.(*Session); ok {
+				return s
+			}
+		}
+	}
+	return nil
+}
+
+func (c *vhWSCoopConn) next() bool {
+	var e envelope
+	last := c.lastSession()
+	switch {
+	case c.step == 0:
+		e = &Session{State: SessionStateNew}
+	case c.step == 1:
+		if last == nil {
+			return false
+		}
+		s := &Session{Envelope: Envelope{ID: last.ID, From: Node{Identity{c.name, "dom"}, "dev"}}, State: SessionStateAuthenticating}
+		s.SetAuthentication(&GuestAuthentication{})
+		e = s
+	case c.step < 2+c.msgs:
+		if last == nil || last.State != SessionStateEstablished {
+			return false
+		}
+		id := vConcat(c.name, []string{"-msg0", "-msg1", "-msg2"}[c.step-2])
+		c.sentMsgs = append(c.sentMsgs, id)
+		e = &Message{Envelope: Envelope{ID: id}, Type: MediaTypeTextPlain(), Content: TextDocument("hi")}
+	default:
+		return false
+	}
+	c.step++
+	b, err := json.Marshal(e)
+	vAssume(err == nil)
+	vStreamPut(c.in, b, 512) // (a fixed frame size keeps the stream arithmetic concrete)
+	return true
+}
+
+func (c *vhWSCoopConn) Read(p []byte) (int, error) {
+	for {
+		if n := vStreamReadAll(c.in, p); n > 0 {
+			return n, nil
+		}
+		if c.next() {
+			continue
+		}
+		select {
+		case <-c.rexp:
+			select {
+			case c.rexp <- struct{}{}:
+			default:
+			}
+			return 0, vhTimeoutErr{}
+		case <-c.closeCh:
+			return 0, errVhStub
+		case <-c.wrote:
+		}
+	}
+}
+
+func (c *vhWSCoopConn) Write(p []byte) (int, error) {
+	if c.closed {
+		return 0, errVhStub
+	}
+	c.frames = append(c.frames, p)
+	select {
+	case c.wrote <- struct{}{}:
+	default:
+	}
+	return len(p), nil
+}
+
+func (c *vhWSCoopConn) Close() error {
+	c.once.Do(func() { c.closed = true; close(c.closeCh) })
+	return nil
+}
+func (c *vhWSCoopConn) LocalAddr() net.Addr           { return vhAddr{} }
+func (c *vhWSCoopConn) RemoteAddr() net.Addr          { return vhAddr{} }
+func (c *vhWSCoopConn) SetDeadline(t time.Time) error { return c.SetReadDeadline(t) }
+func (c *vhWSCoopConn) SetReadDeadline(t time.Time) error {
+	if !t.IsZero() && !t.After(time.Now()) {
+		select {
+		case c.rexp <- struct{}{}:
+		default:
+		}
+	} else {
+		select {
+		case <-c.rexp:
+		default:
+		}
+	}
+	return nil
+}
+func (c *vhWSCoopConn) SetWriteDeadline(t time.Time) error { return nil }
+
+// HarnessC18WS: the real Server serves one connection that arrives through the WebSocket transport
+// (gorilla model / real gorilla natively): handshake, messages handled with replies on the same
+// connection, then the server stops: the client is sent a finished session, the connection is closed,
+// the callbacks fired once each, nothing is left running.
+func HarnessC18WS() {
+	in := vStreamNew("in")
+	conn := newVhWSCoopConn(in, "alice", vParam("msgs", 1))
+	t := vhNewWS(conn)
+	var handled []string
+	established, finished := 0, 0
+	estID := ""
+	cfg := &ServerConfig{Node: Node{Identity{"postmaster", "srv"}, "i1"}, CompOpts: []SessionCompression{SessionCompressionNone},
+		EncryptOpts: []SessionEncryption{SessionEncryptionNone}, SchemeOpts: []AuthenticationScheme{AuthenticationSchemeGuest},
+		Backlog: 1, ChannelBufferSize: vParam("buf", 1),
+		Authenticate: func(ctx context.Context, id Identity, a Authentication) (*AuthenticationResult, error) {
+			return MemberAuthenticationResult(), nil
+		},
+		Register:    func(ctx context.Context, candidate Node, c *ServerChannel) (Node, error) { return candidate, nil },
+		Established: func(id string, c *ServerChannel) { established++; estID = id },
+		Finished:    func(id string) { finished++ },
+	}
+	mux := &EnvelopeMux{}
+	mux.MessageHandlerFunc(nil, func(ctx context.Context, msg *Message, s Sender) error {
+		handled = append(handled, msg.ID)
+		return s.SendNotification(ctx, msg.Notification(NotificationEventReceived))
+	})
+	srv := &Server{config: cfg, mux: mux, transportChan: make(chan Transport, 1)}
+	srv.transportChan <- t
+	ctx, cancel := context.WithCancel(context.Background())
+	go srv.consumeTransports(ctx)
+	vQuiesce()
+	vReach("c18:ws-session-settled")
+	vAssert(established == 1, "c18:ws-established-callback-once")
+	vAssert(len(handled) == len(conn.sentMsgs) && len(conn.sentMsgs) == conn.msgs, "c18:ws-every-message-handled-once")
+	for i := 0; i < len(conn.sentMsgs); i++ {
+		replies := 0
+		for q := 0; q < len(conn.frames); q++ {
+			var raw rawEnvelope
+			if json.Unmarshal(conn.frames[q], &raw) != nil {
+				continue
+			}
+			if e, err := raw.toEnvelope(); err == nil {
+				if nt, ok := e.(*Notification); ok && nt.ID == conn.sentMsgs[i] {
+					replies++
+				}
+			}
+		}
+		vAssert(replies == 1, "c18:ws-reply-on-the-same-connection")
+	}
+	cancel()
+	vSettle()
+	last := conn.lastSession()
+	vAssert(last != nil && last.State == SessionStateFinished && last.ID == estID, "c18:ws-client-observes-finished-session")
+	vAssert(conn.closed, "c18:ws-connection-closed-after-stop")
+	vAssert(finished == 1, "c18:ws-finished-callback-once")
+	vAssert(vThreadsLive() <= 0, "c18:ws-no-goroutine-left")
+}
